@@ -97,6 +97,15 @@ pub fn exec_op2(sim: &Sim, op: &Op, _in_cb: bool) {
         }
         Op::InsertStream { id, script } => crate::exec::insert_stream(sim, *id, script),
         Op::StreamPush(id) => crate::exec::stream_push(sim, *id, false),
+        Op::StreamPushMany(id, n, end) => {
+            for _ in 0..(*n).min(5000) {
+                crate::exec::stream_push(sim, *id, false);
+            }
+            if *end {
+                crate::exec::stream_push(sim, *id, true);
+            }
+            sim.probe("stream_backlog");
+        }
         Op::StreamEnd(id) => crate::exec::stream_push(sim, *id, true),
         _ => {}
     }
